@@ -699,9 +699,10 @@ func ruleDiscardChain(r *core.Reporter) {
 			}
 			okLoop = true
 			start := ir.Pt{B: ii.If.Block().Succs[ii.EdgeWhen(true)], I: 0}
-			for in := range ir.Reach([]ir.Pt{start}, ir.Opts{}).Reached {
+			lres := ir.Reach([]ir.Pt{start}, ir.Opts{})
+			for in := range lres.Reached {
 				if ret, isRet := in.(*ssa.Return); isRet {
-					if c, isC := ir.RetVal(ret, 0).(*ssa.Const); !isC || c.Value == nil || !constant.BoolVal(c.Value) {
+					if vals, okc := lres.BoolReturn(ret); !okc || !allTrue(vals) {
 						okLoop = false
 					}
 				}
@@ -725,9 +726,10 @@ func ruleDiscardChain(r *core.Reporter) {
 		}
 		start := ir.Pt{B: ii.If.Block().Succs[ii.EdgeWhen(true)], I: 0}
 		okHook = true
-		for in := range ir.Reach([]ir.Pt{start}, ir.Opts{}).Reached {
+		hres := ir.Reach([]ir.Pt{start}, ir.Opts{})
+		for in := range hres.Reached {
 			if ret, isRet := in.(*ssa.Return); isRet {
-				if c, isC := ret.Results[0].(*ssa.Const); !isC || c.Value == nil || !constant.BoolVal(c.Value) {
+				if vals, okc := hres.BoolReturn(ret); !okc || !allTrue(vals) {
 					okHook = false
 				}
 			}
